@@ -1,9 +1,258 @@
 package main
 
+// Ground obligations over the literal command tables of the repository (C14): the tables are
+// extracted from the syntax tree of the working tree on every run and compared with the
+// classification in /verif/spec/redis_commands.json (specification data).
+
+import (
+	"encoding/json"
+	"fmt"
+	"go/ast"
+	"go/token"
+	"os"
+	"path/filepath"
+	"sort"
+	"strconv"
+	"strings"
+
+	"golang.org/x/tools/go/packages"
+)
+
 type tableResult struct {
 	Name   string
 	OK     bool
 	Detail string
 }
 
-func runTableChecks(prog *Program, prop string) []tableResult { return nil }
+type cmdSpec struct {
+	Readonly       []string `json:"readonly"`
+	MustNotForward []string `json:"must_not_forward"`
+}
+
+func strLits(cl *ast.CompositeLit) []string {
+	var out []string
+	for _, e := range cl.Elts {
+		if bl, ok := e.(*ast.BasicLit); ok && bl.Kind == token.STRING {
+			if s, err := strconv.Unquote(bl.Value); err == nil {
+				out = append(out, s)
+			}
+		}
+	}
+	return out
+}
+
+// stringTable: the string literals that end up in the package-level table `name` of package pkgPath:
+// its initialiser and every `for _, x := range []string{...} { name[x] = ... }` in the package.
+func (p *Program) stringTable(pkgPath, name string) ([]string, bool) {
+	var out []string
+	found := false
+	packages.Visit(p.pkgs, nil, func(pp *packages.Package) {
+		if pp.Types == nil || pp.Types.Path() != pkgPath {
+			return
+		}
+		for _, f := range pp.Syntax {
+			if strings.HasSuffix(pp.Fset.Position(f.Pos()).Filename, "_test.go") {
+				continue
+			}
+			ast.Inspect(f, func(n ast.Node) bool {
+				switch x := n.(type) {
+				case *ast.ValueSpec:
+					for i, nm := range x.Names {
+						if nm.Name == name && i < len(x.Values) {
+							if cl, ok := x.Values[i].(*ast.CompositeLit); ok {
+								out = append(out, strLits(cl)...)
+								found = true
+							}
+						}
+					}
+				case *ast.RangeStmt:
+					cl, ok := x.X.(*ast.CompositeLit)
+					if !ok {
+						return true
+					}
+					v, ok := x.Value.(*ast.Ident)
+					if !ok {
+						return true
+					}
+					hit := false
+					ast.Inspect(x.Body, func(m ast.Node) bool {
+						as, ok := m.(*ast.AssignStmt)
+						if !ok || len(as.Lhs) != 1 {
+							return true
+						}
+						ix, ok := as.Lhs[0].(*ast.IndexExpr)
+						if !ok {
+							return true
+						}
+						if id, ok := ix.X.(*ast.Ident); ok && id.Name == name {
+							if k, ok := ix.Index.(*ast.Ident); ok && k.Name == v.Name {
+								hit = true
+							}
+						}
+						return true
+					})
+					if hit {
+						out = append(out, strLits(cl)...)
+						found = true
+					}
+				}
+				return true
+			})
+		}
+	})
+	return out, found
+}
+
+// handlerKeys: the command names registered by initCommandHandlers (literal arguments of addHandler and
+// tables ranged over).
+func (p *Program) handlerKeys(pkgPath string) ([]string, bool) {
+	var out []string
+	found := false
+	packages.Visit(p.pkgs, nil, func(pp *packages.Package) {
+		if pp.Types == nil || pp.Types.Path() != pkgPath {
+			return
+		}
+		for _, f := range pp.Syntax {
+			for _, d := range f.Decls {
+				fd, ok := d.(*ast.FuncDecl)
+				if !ok || fd.Name.Name != "initCommandHandlers" || fd.Body == nil {
+					continue
+				}
+				found = true
+				ast.Inspect(fd.Body, func(n ast.Node) bool {
+					switch x := n.(type) {
+					case *ast.RangeStmt:
+						if id, ok := x.X.(*ast.Ident); ok {
+							calls := false
+							ast.Inspect(x.Body, func(m ast.Node) bool {
+								if ce, ok := m.(*ast.CallExpr); ok {
+									if se, ok := ce.Fun.(*ast.SelectorExpr); ok && se.Sel.Name == "addHandler" {
+										calls = true
+									}
+								}
+								return true
+							})
+							if calls {
+								t, _ := p.stringTable(pkgPath, id.Name)
+								out = append(out, t...)
+							}
+						}
+					case *ast.CallExpr:
+						if se, ok := x.Fun.(*ast.SelectorExpr); ok && se.Sel.Name == "addHandler" && len(x.Args) >= 2 {
+							if bl, ok := x.Args[1].(*ast.BasicLit); ok && bl.Kind == token.STRING {
+								if s, err := strconv.Unquote(bl.Value); err == nil {
+									out = append(out, s)
+								}
+							}
+						}
+					}
+					return true
+				})
+			}
+		}
+	})
+	return out, found
+}
+
+func runTableChecks(prog *Program, prop string) []tableResult {
+	if prop != "C14" {
+		return nil
+	}
+	var res []tableResult
+	data, err := os.ReadFile(filepath.Join(specDir, "redis_commands.json"))
+	var spec cmdSpec
+	if err != nil || json.Unmarshal(data, &spec) != nil {
+		return []tableResult{{Name: "table/spec-file", OK: false, Detail: "cannot read redis_commands.json"}}
+	}
+	ro := map[string]bool{}
+	for _, c := range spec.Readonly {
+		ro[c] = true
+	}
+	banned := map[string]bool{}
+	for _, c := range spec.MustNotForward {
+		banned[c] = true
+	}
+	pkg := prog.module + "/proc/redis"
+	rotab, ok1 := prog.stringTable(pkg, "readOnlyCommands")
+	hk, ok2 := prog.handlerKeys(pkg)
+	if !ok1 || len(rotab) == 0 {
+		res = append(res, tableResult{Name: "table/readOnlyCommands-extracted", OK: false, Detail: "the read-only table could not be extracted from the syntax tree"})
+	}
+	if !ok2 || len(hk) == 0 {
+		res = append(res, tableResult{Name: "table/handler-keys-extracted", OK: false, Detail: "the handler table could not be extracted from initCommandHandlers"})
+	}
+	sort.Strings(rotab)
+	sort.Strings(hk)
+	// one obligation per entry: named by the entry, so that each defect is identified separately
+	for _, c := range rotab {
+		r := tableResult{Name: "table/read-only-entry-is-read-only-in-redis/" + c, OK: ro[strings.ToLower(c)]}
+		r.Detail = fmt.Sprintf("readOnlyCommands contains %q; Redis flags it %s", c, map[bool]string{true: "readonly", false: "as a write command: it may be routed to a replica under the REPLICA/BOTH strategies"}[r.OK])
+		if !r.OK {
+			r.Detail += "; " + replayWriteToReplica(prog, c)
+		}
+		res = append(res, r)
+	}
+	for _, c := range hk {
+		r := tableResult{Name: "table/handled-command-may-be-forwarded/" + c, OK: !banned[strings.ToLower(c)] || isLocal(c)}
+		r.Detail = fmt.Sprintf("the handler table registers %q", c)
+		if !r.OK {
+			r.Detail += "; it is in the must-not-forward list (multi-key/transaction/pub-sub/blocking/administrative)"
+		}
+		res = append(res, r)
+	}
+	// lower-case keys only: findHandler lower-cases the client's command name
+	for _, c := range hk {
+		if c != strings.ToLower(c) {
+			res = append(res, tableResult{Name: "table/handler-key-is-lower-case/" + c, OK: false, Detail: "findHandler looks commands up in lower case; this key can never match"})
+		}
+	}
+	return res
+}
+
+// commands answered by the proxy itself
+func isLocal(c string) bool {
+	switch c {
+	case "ping", "quit", "select", "info", "time", "hotkey":
+		return true
+	}
+	return false
+}
+
+// replayWriteToReplica: routes the write command through the real chooseHost under the REPLICA strategy.
+func replayWriteToReplica(prog *Program, cmd string) string {
+	dir, _ := os.MkdirTemp("/var/tmp", "govc-replay-")
+	defer os.RemoveAll(dir)
+	src := fmt.Sprintf(`package redis
+
+import (
+	"testing"
+
+	redispb "github.com/samaritan-proxy/samaritan/pb/config/protocol/redis"
+)
+
+func TestGovcReplayWriteToReplica(t *testing.T) {
+	cfg := makeDefaultConfig()
+	cfg.GetRedisOption().ReadStrategy = redispb.ReadStrategy_REPLICA
+	u := newTestUpstream(cfg)
+	master := &instance{ID: "m", Addr: "10.0.0.1:7000"}
+	master.Replicas = []*instance{{ID: "r", Addr: "10.0.0.2:7000", MasterID: "m"}}
+	for i := range u.slots {
+		u.slots[i] = master
+	}
+	req := newSimpleRequest(newStringArray(%q, "key", "1", "2", "member"))
+	addr, err := u.chooseHost([]byte("key"), req)
+	if err == nil && addr != master.Addr {
+		t.Fatalf("REPLAY-VIOLATION the write command %%s is routed to the replica %%s instead of the master %%s under the REPLICA read strategy", %q, addr, master.Addr)
+	}
+}
+`, cmd, strings.ToUpper(cmd))
+	failed, out := runOverlayTest(prog.repo, "proc/redis", "TestGovcReplayWriteToReplica", src, dir)
+	if failed {
+		for _, l := range strings.Split(out, "\n") {
+			if strings.Contains(l, "REPLAY-VIOLATION") {
+				return "replayed on the real code: " + strings.TrimSpace(l)
+			}
+		}
+	}
+	return "replay on the real code did not reproduce"
+}
